@@ -403,6 +403,16 @@ func TestEnumBoundary(t *testing.T) {
 		cases = append(cases, oneFeature(Feat{Geom: gen.G{V: orb.Polygon{{a, {o + 4, o}, {o + 4, o + 4}, {o + 1, o + 1}}}}})) // 4 points, unclosed, last one unit from first
 		cases = append(cases, oneFeature(Feat{Geom: gen.G{V: orb.MultiPolygon{{{a, {o + 4, o}, {o, o + 4}}}, {{{o + 9, o}, {o + 13, o}, {o + 9, o + 4}, {o + 9, o + 1}}}}}}))
 	}
+	// class M3: id-like keys carrying id-like values on features WITHOUT an id (it must stay absent) and on
+	// features with another id (it must stay that id); vocabulary words as layer names, keys and values
+	for _, key := range []string{"id", "ID", "$id", "_id", "fid", "osm_id", "type", "geometry", "properties", "name", "extent", "version", "keys", "values", "tags", "features", "layer", ""} {
+		for _, v := range []Val{{T: "int", V: "7"}, {T: "uint64", V: "7"}, {T: "float64", V: "7"}, {T: "float32", V: "7"}, {T: "int8", V: "-1"}, {T: "string", V: "7"}, {T: "string", V: "007"},
+			{T: "string", V: "-1"}, {T: "string", V: "1e3"}, {T: "string", V: "507f1f77bcf86cd799439011"}, {T: "string", V: "123e4567-e89b-12d3-a456-426614174000"}, {T: "bool", V: "true"}, {T: "nil"}} {
+			cases = append(cases, oneFeature(Feat{Props: []KV{{K: S(key), V: v}}}))
+			cases = append(cases, oneFeature(Feat{ID: &Val{T: "int", V: "3"}, Props: []KV{{K: S(key), V: v}, {K: "other", V: Val{T: "string", V: S(key)}}}}))
+		}
+		cases = append(cases, Case{Layers: []Layer{{Name: S(key), Version: 2, Extent: 4096, Features: []Feat{{Geom: gen.G{V: orb.Point{1, 1}}, Props: []KV{{K: "name", V: Val{T: "string", V: S(key)}}}}}}}})
+	}
 	// the largest triangle and the largest square of the domain, both windings as outer ring and hole
 	big := orb.Ring{{-maxCoord, -maxCoord}, {maxCoord, -maxCoord}, {maxCoord, maxCoord}, {-maxCoord, maxCoord}, {-maxCoord, -maxCoord}}
 	tri := orb.Ring{{-maxCoord + 1, -maxCoord + 1}, {maxCoord - 1, -maxCoord + 1}, {0, maxCoord - 1}, {-maxCoord + 1, -maxCoord + 1}}
